@@ -277,7 +277,7 @@ func cmdCheck(args []string) int {
 			for _, o := range lf.Obs {
 				extra = append(extra, o.Val)
 			}
-			mr := solveModelB(ss, lf.PC, names, nts, extra, 3000, false, witDeadline, 6)
+			mr := solveModelS(ss, lf.PC, lf.Shadow, lf.WDefs, names, nts, extra, 3000, false, witDeadline, 6)
 			if mr.Status != "sat" {
 				unwitnessed++
 				continue
